@@ -12,12 +12,12 @@ CHECKS = {
 CHECKS["C01"] = dict(
    technique="Coq proof (frame theorem over a heap model of the instance machinery: every copy-on-write call writes only cells allocated during the call; Hoare-style judgement, mutual induction on fuel) + differential correspondence model vs implementation on canonical object graphs evaluated by vm_compute",
    text="Theorems C01_cow_call_writes_no_existing_cell / C01_deepcopy_writes_no_existing_cell / C01_core_respects_watermark are proved in Coq for every class table without do_not_copy=True classes (frozen included), every heap, receiver, helper, argument vector (valid or not), every outcome (return or exception) and every callback failure point: a call without _inplace=True writes no heap cell that existed before it. The model (coq/Inst/Model.v, ~1000 lines following mutation.py / core.py / scalar.py / toplevel.py / collections/*.py branch by branch) is tied to /repo on every run: generated class tables and operation histories are executed by model and implementation, and the canonical object graph (content and sharing) of all live roots is compared after every operation; the C01 oracle (pre-existing graph unchanged after a copy-on-write call) is evaluated in Coq on the implementation's own observations.",
-   note="Trusted: Coq kernel + vm_compute; hand-written model and Python container/deepcopy/attribute semantics (validated by correspondence only); harness graph canonicaliser; callback purity contract. Crash points: user-callback failures (any invocation in the theorem; 1st..3rd in the correspondence) and every error the model can raise are covered by the theorem; exceptions injected at executed lines of library code are explored on the implementation only (oracle: pre-existing graph unchanged), not proved. KeyedList/KeyedSet-typed attributes, masked attributes and do_not_copy=True classes are outside the model.",
+   note="Trusted: Coq kernel + vm_compute; hand-written model and Python container/deepcopy/attribute semantics (validated by correspondence only); harness graph canonicaliser; callback purity contract. Crash points: user-callback failures (any invocation in the theorem; 1st..3rd in the correspondence) and every error the model can raise are covered by the theorem; exceptions injected at executed lines of library code are explored on the implementation only (oracle: pre-existing graph unchanged), not proved. KeyedList/KeyedSet-typed attributes, masked attributes, float/Literal/Tuple annotations, two spec parents and do_not_copy=True classes are outside the model; they are explored on the implementation only (keyed attributes with and without item preparers, classes derived from a do_not_copy=True class, and a class zoo on which every generated helper, found by introspection, is called with an assorted argument pool incl. values whose deep copy fails), with the oracle 'receiver, arguments and keyword values are the same object graph with equal contents afterwards' evaluated in Python. Plain subclasses overriding defaults, Union and Optional[spec] attributes are inside model and correspondence.",
    design="4 C01")
 CHECKS["C04"] = dict(
    technique="Coq proof (frame theorem: every constructor call, copy-on-write call and deepcopy, and every in-place operation on a frozen instance, writes no pre-existing heap cell whatever the outcome; the full statement is refuted for multi-keyword in-place update/transform and recorded as a known finding) + differential correspondence with failure injection, evaluated by vm_compute",
    text="C04_atomic_partial_cow_and_constructors, C04_atomic_partial_frozen_inplace and C04_constructor_result_is_fresh are proved for every class table (no do_not_copy=True classes), heap, argument vector, callback failure point and error. The full statement (every operation, including _inplace=True on non-frozen receivers) is false of the code: C04_multi_keyword_inplace_update_refuted exhibits update(_inplace=True, a=ok, b=bad) committing a before failing on b (open finding). C04_atomic_partial_assignment and C04_atomic_partial_inplace_attribute_and_element_helpers prove the same for obj.a = v and for every attribute-level and element-level helper called with _inplace=True (with_/update_/transform_/reset_<attr>, with_/update_/transform_/without_<item> on list/dict/set attributes) on any instance when nothing is invalidated by the attribute; C04_atomic_partial_inplace_update_single_keyword / _transform_single_keyword do so for the top-level update(a=v, _inplace=True) / transform(a=f, _inplace=True) with exactly one keyword. The remaining in-place cases (attributes with dependants, top-level update/transform with several keywords, reset) are decided by the correspondence (model = implementation on canonical object graphs after every operation, ~60% of generated operations failing: ill-typed values at every position, missing index/key/element, unknown keywords, callbacks raising at their 1st..3rd invocation) and the C04 oracle evaluated in Coq on the implementation's own observations (pre-existing graph unchanged after an exception).",
-   note="Trusted: Coq kernel + vm_compute; hand-written model (validated by correspondence); harness canonicaliser; callback purity. Partial: in-place operations on non-frozen instances are not covered by a theorem. Known findings: KNOWN_FINDINGS.json (multi-keyword in-place update/transform).",
+   note="Trusted: Coq kernel + vm_compute; hand-written model (validated by correspondence); harness canonicaliser; callback purity. Partial: in-place operations are covered by theorems only when the written attribute has no dependants (and for top-level update/transform with one keyword); with dependants, several keywords or reset(_inplace=True) the statement is false of the code (KNOWN_FINDINGS.json: four open findings, each with a signature). Outside the model, explored on the implementation only with the oracle 'after an exception receiver and arguments are the same object graph with equal contents' evaluated in Python: KeyedList/KeyedSet attributes (duplicate keys, ill-typed items, key-valued and None positions, item preparers failing at the n-th item), and a class zoo (float/Literal/Union/Tuple attributes, cached spec_property, two levels of plain subclassing, two spec parents, classes derived from a do_not_copy=True class, aborted deep copies) on which every generated helper, assignment and deletion is called with an assorted argument pool.",
    design="4 C04")
 CHECKS["C07"] = dict(
    technique="Coq proof (every in-place operation on a frozen instance writes no pre-existing cell and deletion raises FrozenInstanceError; copy-on-write calls on frozen instances write no pre-existing cell) + differential correspondence incl. frozen/non-frozen twin runs of the implementation",
